@@ -45,7 +45,9 @@ TCall(e) ==
          Step(e.a) /\ e.r.pan = 0 /\ e.r.len = e.a.c
     [] e.a.op = "rd" ->
          /\ ~e.r.srcmut                      \* decoding leaves the bytes it decodes from alone
-         /\ IF Known(e.a) THEN Step(e.a) /\ RdMatch(e.r, ReplyRd(e.a))
+         /\ IF Known(e.a)
+            THEN IF LimRef(e.a) THEN LStep(e.a, e.r)
+                 ELSE Step(e.a) /\ RdMatch(e.r, ReplyRd(e.a))
             ELSE UStep(e.a, e.r)
     [] OTHER -> FALSE
 
